@@ -1929,6 +1929,7 @@ func (db *DatabaseCollectionWithUser) getResyncedDocument(ctx context.Context, d
 			base.WarnfCtx(ctx, "Error calling sync() on doc %q: %v", base.UD(docid), err)
 			access = nil
 			channels = nil
+			roles = nil
 		}
 		if rev.ID != doc.GetRevTreeID() && !channels.Equals(rev.Channels) {
 			// a non-winning leaf's channels are persisted in the revision tree only
